@@ -40,6 +40,15 @@ class Decoders:
             if family is None or fam == family:
                 yield from es
 
+    def _bases(self, ci):
+        out = []
+        for b in ci.bases:
+            f = self.repo.lookup(b)
+            if f and f[0] == "class":
+                out.append(f[2])
+                out.extend(self._bases(f[2]))
+        return out
+
     def decode(self, entry: registry.Entry) -> Decoded:
         k = (entry.family, entry.key)
         if k in self._cache:
@@ -63,6 +72,10 @@ class Decoders:
                 # what its own __str__ says
                 d.problems.append(f"class {ci.qualname} is passed through the decorator {wrappers[0]}: its rendering may be "
                                   f"replaced by it")
+            elif "__post_init__" in ci.methods or any("__post_init__" in b.methods for b in self._bases(ci)):
+                # fields computed after construction (__post_init__, InitVar): the object the handler builds is not the one
+                # __str__ renders - not followed
+                d.problems.append(f"class {ci.qualname} computes fields in __post_init__: its rendering is not derived")
             elif "__str__" in ci.methods:
                 srec = self.interp.run(ci.module, ci.methods["__str__"], {"self": obj}, self_cls=ci)
                 d.str_rec = srec
